@@ -131,7 +131,11 @@ type FragRecvCase struct {
 
 func runFragRecv(c *FragRecvCase) *sim.Outcome {
 	o := &sim.Outcome{}
-	m := newMix(c.Cfg, 0)
+	polA := 0
+	if c.N%3 == 2 {
+		polA = sim.PolV2 | sim.PolV3 // the victim's policy allows the other version too; the session still runs the peer's
+	}
+	m := newMix(c.Cfg, polA)
 	if !m.Establish(c.Cfg.Starter) {
 		o.Discard = true
 		return o
@@ -209,7 +213,7 @@ func runFragRecv(c *FragRecvCase) *sim.Outcome {
 			return o
 		}
 		kind := ev.K
-		if ambiguous && kind != "plain" && kind != "garbage" && kind != "foreign" && kind != "zero" && kind != "over" {
+		if ambiguous && kind != "plain" && kind != "garbage" && kind != "foreign" && kind != "badtag" && kind != "zero" && kind != "over" {
 			kind = "restart"
 		}
 		midStream := model.K > 0
@@ -338,6 +342,24 @@ func runFragRecv(c *FragRecvCase) *sim.Outcome {
 			model = ref.Reassembler{}
 			oddMid = true
 			o.Class("other-header-format")
+		case "badtag":
+			// a version 3 fragment with a reserved sender or receiver tag: refused, and the stream in progress is not its business
+			if !v3 {
+				continue
+			}
+			st, rt := uint32(1+ev.A%0xff), own
+			if ev.A%3 == 2 {
+				st, rt = peer, uint32(1+ev.A%0xff)
+			}
+			cb := send(1+ev.A%2, 2, []byte("reserved"), st, rt)
+			if cb.HasPl {
+				return o.Fail("C14/spurious-delivery", "a fragment with a reserved instance tag made Receive return %.60q", cb.Plain)
+			}
+			oddMid = oddMid || midStream
+			if !midStream && completed > 0 {
+				completedThenMore = true
+			}
+			o.Class("reserved-tag-fragment")
 		case "foreign":
 			if !v3 {
 				continue
@@ -463,7 +485,7 @@ func TestProp_C14_Sizes(t *testing.T) {
 
 func TestProp_C14_Recv(t *testing.T) {
 	defer sim.MarkCompleted("C14recv", false)
-	kinds := []string{"next", "next", "next", "next", "next", "next", "restart", "wrongtotal", "dup", "skip", "zero", "over", "foreign", "otherformat", "otherformat", "garbage", "plain", "data"}
+	kinds := []string{"next", "next", "next", "next", "next", "next", "restart", "wrongtotal", "dup", "skip", "zero", "over", "foreign", "badtag", "badtag", "otherformat", "otherformat", "garbage", "plain", "data"}
 	rapid.Check(t, func(rt *rapid.T) {
 		c := &FragRecvCase{Cfg: genSessCfg(rt), N: rapid.IntRange(0, 4).Draw(rt, "n")}
 		c.Cfg.FragA, c.Cfg.FragB = 0, 0
